@@ -1,6 +1,7 @@
 (* AlgebraSound.v — soundness of the algebra layer (gen/AlgebraGen.v, the
    translation of pacti/iocontract/iocontract.py) for *every* constraint Domain
-   whose primitives meet their documented contracts (DomainSpec, AlgebraSpec.v).
+   whose primitives meet their documented contracts (DomainSpec, AlgebraSpec.v)
+   on well-formed terms (invariant wf); every operation also keeps the invariant.
 
    The proofs are written against the generated definitions but never mention
    an auto-generated hypothesis name: the monadic structure is taken apart by
@@ -131,24 +132,75 @@ Section Sound.
 Context `{D : Domain}.
 Variable B : Type.
 Variable dt : term -> B -> Prop.
-Hypothesis S : DomainSpec B dt.
+Variable wf : term -> Prop.
+Hypothesis S : DomainSpec B dt wf.
 
-Lemma dt_eqb : forall b (t1 t2 : term), py_eqb t1 t2 = true -> (dt t1 b <-> dt t2 b).
-Proof. intros b t1 t2 E. apply (eqb_sound B dt S). exact E. Qed.
+(* ---------- the invariant is kept by the list layer ---------- *)
+Lemma wfs_nil : wfs wf [].
+Proof. constructor. Qed.
 
+Lemma wfs_filter (f : term -> bool) x : wfs wf x -> wfs wf (filter f x).
+Proof.
+  unfold wfs. rewrite !Forall_forall. intros Hx t Ht. apply filter_In in Ht. apply Hx. tauto.
+Qed.
+
+Lemma wfs_union x y : wfs wf x -> wfs wf y -> wfs wf (list_union x y).
+Proof. intros Hx Hy. unfold list_union, wfs. apply Forall_app. split; [exact Hx|apply wfs_filter; exact Hy]. Qed.
+
+Lemma wfs_diff x y : wfs wf x -> wfs wf (list_diff x y).
+Proof. apply wfs_filter. Qed.
+
+Lemma wfs_inter x y : wfs wf x -> wfs wf (list_intersection x y).
+Proof. apply wfs_filter. Qed.
+
+Lemma wfs_twv x vs : wfs wf x -> wfs wf (TermList_get_terms_with_vars x vs).
+Proof.
+  unfold wfs. rewrite !Forall_forall. intros Hx t Ht. apply Hx. eapply twv_incl. exact Ht.
+Qed.
+
+Lemma wfs_rename x s u : wfs wf x -> wfs wf (TermList_rename_variable x s u).
+Proof.
+  unfold TermList_rename_variable. rewrite TermList_init_Some. unfold wfs.
+  rewrite !Forall_forall. intros Hx t Ht. apply in_map_iff in Ht. destruct Ht as (t0 & <- & Ht0).
+  apply (rename_wf B dt wf S). apply Hx. exact Ht0.
+Qed.
+
+(* side conditions [wfs wf _]: from the context, through the list operations *)
+Ltac wfs_solve :=
+  simpl opt_list;
+  solve [ repeat first [ assumption | apply wfs_nil | apply wfs_union | apply wfs_diff
+                       | apply wfs_inter | apply wfs_twv | apply wfs_rename ] ].
+
+(* ---------- meaning of the list layer ---------- *)
 Lemma den_nil b : den B dt [] b.
 Proof. constructor. Qed.
 
-Lemma den_union x y b : den B dt (list_union x y) b <-> den B dt x b /\ den B dt y b.
-Proof. unfold den. apply (Forall_list_union (fun t => dt t b)). apply dt_eqb. Qed.
+Lemma den_filter (f : term -> bool) x b : den B dt x b -> den B dt (filter f x) b.
+Proof.
+  unfold den. rewrite !Forall_forall. intros Hx t Ht. apply filter_In in Ht. apply Hx. tauto.
+Qed.
+
+Lemma den_union x y b : wfs wf x -> wfs wf y ->
+  (den B dt (list_union x y) b <-> den B dt x b /\ den B dt y b).
+Proof.
+  intros Wx Wy. unfold list_union, den. rewrite Forall_app. split.
+  - intros [Hx Hy]. split; [exact Hx|].
+    unfold wfs in *. rewrite Forall_forall in *. intros t Ht.
+    destruct (py_in t x) eqn:E.
+    + unfold py_in in E. apply existsb_exists in E. destruct E as (u & Hu & Eu). simpl in Eu.
+      apply (eqb_sound B dt wf S t u (Wy t Ht) (Wx u Hu) Eu b). apply Hx. exact Hu.
+    + apply Hy. apply filter_In. rewrite E. split; [exact Ht|reflexivity].
+  - intros [Hx Hy]. split; [exact Hx|]. apply den_filter. exact Hy.
+Qed.
 
 Lemma den_diff x y b : den B dt x b -> den B dt (list_diff x y) b.
-Proof. unfold den. apply (Forall_list_diff (fun t => dt t b)). Qed.
+Proof. apply den_filter. Qed.
 
 Lemma den_inter x y b : den B dt x b -> den B dt (list_intersection x y) b.
-Proof. unfold den. apply (Forall_list_intersection (fun t => dt t b)). Qed.
+Proof. apply den_filter. Qed.
 
-Lemma den_or x y b : den B dt (TermList_or x y) b <-> den B dt x b /\ den B dt y b.
+Lemma den_or x y b : wfs wf x -> wfs wf y ->
+  (den B dt (TermList_or x y) b <-> den B dt x b /\ den B dt y b).
 Proof. rewrite TermList_or_eq. apply den_union. Qed.
 
 Lemma den_sub x y b : den B dt x b -> den B dt (TermList_sub x y) b.
@@ -168,137 +220,236 @@ Proof.
   unfold den. rewrite !Forall_forall. intros Hx t Ht. apply Hx. eapply twv_incl. exact Ht.
 Qed.
 
+(* split the well-formedness hypotheses on contracts *)
+Ltac open_wfc :=
+  repeat match goal with
+  | Hw : wfc wf _ |- _ => destruct Hw
+  end.
+
 (* ---------- 1. IoContract_init ---------- *)
-Theorem init_sound : forall a g i o sp c, IoContract_init a g i o sp = inl c ->
-  c_a c = a /\ c_inputvars c = i /\ c_outputvars c = o /\
+Theorem init_sound : forall a g i o sp c, wfs wf a -> wfs wf g ->
+  IoContract_init a g i o sp = inl c ->
+  wfc wf c /\ c_a c = a /\ c_inputvars c = i /\ c_outputvars c = o /\
   (forall b, den B dt a b -> (den B dt (c_g c) b <-> den B dt g b)).
 Proof.
-  intros a g i o sp c Hc. unfold IoContract_init in Hc. open_in Hc.
-  repeat inl_step; simpl; tl_simpl;
-    (split; [reflexivity|split; [reflexivity|split; [reflexivity|]]]); intros b Hb.
+  intros a g i o sp c Wa Wg Hc. unfold IoContract_init in Hc. open_in Hc.
+  repeat inl_step; tl_simpl.
   - match goal with
-    | Hp : p_simplify _ _ = inl _ |- _ => apply (simpl_ok B dt S _ _ _ Hp b); simpl; exact Hb
+    | Hp : p_simplify _ ?ctx = inl _ |- _ =>
+        assert (Wctx : wfs wf (opt_list ctx)) by wfs_solve;
+        destruct (simpl_ok B dt wf S _ _ _ Wg Wctx Hp) as [Wr Hq]; simpl opt_list in Hq
     end.
-  - tauto.
+    unfold wfc; simpl.
+    split; [split; assumption|]. do 3 (split; [reflexivity|]). exact Hq.
+  - unfold wfc; simpl.
+    split; [split; assumption|]. do 3 (split; [reflexivity|]). intros b Hb. tauto.
 Qed.
 
 (* bring in the contract of every primitive call (and of IoContract_init) found
-   in the context, at behaviour b *)
-Ltac saturate b :=
+   in the context, as soon as its arguments are known to be well-formed; the
+   semantic halves stay quantified over the behaviour *)
+Ltac saturate :=
   repeat match goal with
-  | Hp : p_elim_refine _ _ _ _ _ = inl (_, _) |- _ =>
+  | Hp : p_elim_refine ?s ?ctx _ _ _ = inl (_, _) |- _ =>
+      let W1 := fresh "W" in
+      let W2 := fresh "W" in
+      let Wr := fresh "Wr" in
       let Hq := fresh "Hq" in
-      pose proof (refine_ok B dt S _ _ _ _ _ _ _ Hp b) as Hq; clear Hp
-  | Hp : p_elim_relax _ _ _ _ _ = inl (_, _) |- _ =>
+      assert (W1 : wfs wf s) by wfs_solve; assert (W2 : wfs wf ctx) by wfs_solve;
+      destruct (refine_ok B dt wf S _ _ _ _ _ _ _ W1 W2 Hp) as [Wr Hq]; clear Hp W1 W2
+  | Hp : p_elim_relax ?s ?ctx _ _ _ = inl (_, _) |- _ =>
+      let W1 := fresh "W" in
+      let W2 := fresh "W" in
+      let Wr := fresh "Wr" in
       let Hq := fresh "Hq" in
-      pose proof (relax_ok B dt S _ _ _ _ _ _ _ Hp b) as Hq; clear Hp
-  | Hp : p_simplify _ _ = inl _ |- _ =>
+      assert (W1 : wfs wf s) by wfs_solve; assert (W2 : wfs wf ctx) by wfs_solve;
+      destruct (relax_ok B dt wf S _ _ _ _ _ _ _ W1 W2 Hp) as [Wr Hq]; clear Hp W1 W2
+  | Hp : p_simplify ?s ?ctx = inl _ |- _ =>
+      let W1 := fresh "W" in
+      let W2 := fresh "W" in
+      let Wr := fresh "Wr" in
       let Hq := fresh "Hq" in
-      pose proof (simpl_ok B dt S _ _ _ Hp b) as Hq; simpl opt_list in Hq; clear Hp
-  | Hp : p_refines _ _ = inl true |- _ =>
+      assert (W1 : wfs wf s) by wfs_solve; assert (W2 : wfs wf (opt_list ctx)) by wfs_solve;
+      destruct (simpl_ok B dt wf S _ _ _ W1 W2 Hp) as [Wr Hq]; simpl opt_list in Hq; clear Hp W1 W2
+  | Hp : p_refines ?x ?y = inl true |- _ =>
+      let W1 := fresh "W" in
+      let W2 := fresh "W" in
       let Hq := fresh "Hq" in
-      pose proof (refines_ok B dt S _ _ Hp b) as Hq; clear Hp
-  | Hp : IoContract_init _ _ _ _ _ = inl _ |- _ =>
+      assert (W1 : wfs wf x) by wfs_solve; assert (W2 : wfs wf y) by wfs_solve;
+      pose proof (refines_ok B dt wf S _ _ W1 W2 Hp) as Hq; clear Hp W1 W2
+  | Hp : IoContract_init ?a ?g _ _ _ = inl _ |- _ =>
+      let W1 := fresh "W" in
+      let W2 := fresh "W" in
+      let Wc := fresh "Wc" in
       let Ea := fresh "Ea" in
       let Ei := fresh "Ei" in
       let Eo := fresh "Eo" in
       let Hq := fresh "Hq" in
-      apply init_sound in Hp; destruct Hp as (Ea & Ei & Eo & Hq);
-      specialize (Hq b); try rewrite Ea in *; clear Ea Ei Eo
+      assert (W1 : wfs wf a) by wfs_solve; assert (W2 : wfs wf g) by wfs_solve;
+      destruct (init_sound _ _ _ _ _ _ W1 W2 Hp) as (Wc & Ea & Ei & Eo & Hq);
+      clear Hp W1 W2 Ei Eo
   end.
 
-(* after [saturate]: everything is about [den _ b] atoms *)
-Ltac den_finish b :=
-  tl_simpl;
+(* instantiate the semantic halves at behaviour b *)
+Ltac at_behaviour b :=
   repeat match goal with
-  | Hd : context [den B dt (list_diff ?x ?y) b] |- _ =>
+  | Hq : forall _ : B, _ |- _ => specialize (Hq b)
+  end.
+
+(* after [saturate] and [at_behaviour b]: everything is about [den _ b] atoms;
+   unions and differences are explained to tauto by their lemmas *)
+Ltac den_finish b :=
+  repeat match goal with
+  | Ea : c_a _ = _ |- _ => try rewrite Ea in *; clear Ea
+  end;
+  repeat match goal with
+  | _ : context [den B dt (list_diff ?x ?y) b] |- _ =>
       lazymatch goal with
       | _ : den B dt x b -> den B dt (list_diff x y) b |- _ => fail
       | _ => pose proof (den_diff x y b)
       end
+  | _ : context [den B dt (list_union ?x ?y) b] |- _ =>
+      lazymatch goal with
+      | _ : den B dt (list_union x y) b <-> _ |- _ => fail
+      | _ =>
+          let W1 := fresh "W" in
+          let W2 := fresh "W" in
+          assert (W1 : wfs wf x) by wfs_solve; assert (W2 : wfs wf y) by wfs_solve;
+          pose proof (den_union x y b W1 W2); clear W1 W2
+      end
+  | |- context [den B dt (list_union ?x ?y) b] =>
+      lazymatch goal with
+      | _ : den B dt (list_union x y) b <-> _ |- _ => fail
+      | _ =>
+          let W1 := fresh "W" in
+          let W2 := fresh "W" in
+          assert (W1 : wfs wf x) by wfs_solve; assert (W2 : wfs wf y) by wfs_solve;
+          pose proof (den_union x y b W1 W2); clear W1 W2
+      end
   end;
   pose proof (den_nil b);
-  rewrite ?den_union in *;
   tauto.
 
 (* ---------- 2. composition ---------- *)
-Theorem compose_sound : forall c1 c2 keep sp od c st,
-  IoContract_compose_tactics c1 c2 keep sp od = inl (c, st) -> compose_obligation B dt c1 c2 c.
+Theorem compose_sound : forall c1 c2 keep sp od c st, wfc wf c1 -> wfc wf c2 ->
+  IoContract_compose_tactics c1 c2 keep sp od = inl (c, st) ->
+  wfc wf c /\ compose_obligation B dt c1 c2 c.
 Proof.
-  intros c1 c2 keep sp od c st Hc b. unfold honours.
+  intros c1 c2 keep sp od c st W1 W2 Hc. open_wfc.
   unfold IoContract_compose_tactics in Hc. open_in Hc.
-  repeat inl_step; saturate b; den_finish b.
+  repeat inl_step; tl_simpl; saturate;
+    (split; [assumption|]); intros b; unfold honours; at_behaviour b; den_finish b.
 Qed.
 
-Corollary compose_sound_simple : forall c1 c2 keep sp c,
-  IoContract_compose c1 c2 keep sp = inl c -> compose_obligation B dt c1 c2 c.
+Corollary compose_sound_simple : forall c1 c2 keep sp c, wfc wf c1 -> wfc wf c2 ->
+  IoContract_compose c1 c2 keep sp = inl c ->
+  wfc wf c /\ compose_obligation B dt c1 c2 c.
 Proof.
-  intros c1 c2 keep sp c Hc. unfold IoContract_compose in Hc. open_in Hc.
+  intros c1 c2 keep sp c W1 W2 Hc. unfold IoContract_compose in Hc. open_in Hc.
   repeat inl_step.
   match goal with
-  | Hp : IoContract_compose_tactics _ _ _ _ _ = inl _ |- _ => exact (compose_sound _ _ _ _ _ _ _ Hp)
+  | Hp : IoContract_compose_tactics _ _ _ _ _ = inl _ |- _ => exact (compose_sound _ _ _ _ _ _ _ W1 W2 Hp)
   end.
 Qed.
 
 (* ---------- 3. quotient ---------- *)
-Theorem quotient_sound : forall c c1 add sp od q st,
-  IoContract_quotient_tactics c c1 add sp od = inl (q, st) -> quotient_obligation B dt c c1 q.
+Theorem quotient_sound : forall c c1 add sp od q st, wfc wf c -> wfc wf c1 ->
+  IoContract_quotient_tactics c c1 add sp od = inl (q, st) ->
+  wfc wf q /\ quotient_obligation B dt c c1 q.
 Proof.
-  intros c c1 add sp od q st Hc b. unfold honours.
+  intros c c1 add sp od q st W W1 Hc. open_wfc.
   unfold IoContract_quotient_tactics in Hc. open_in Hc.
-  repeat inl_step; saturate b; den_finish b.
+  repeat inl_step; tl_simpl; saturate;
+    (split; [assumption|]); intros b; unfold honours; at_behaviour b; den_finish b.
 Qed.
 
-Corollary quotient_sound_simple : forall c c1 add sp q,
-  IoContract_quotient c c1 add sp = inl q -> quotient_obligation B dt c c1 q.
+Corollary quotient_sound_simple : forall c c1 add sp q, wfc wf c -> wfc wf c1 ->
+  IoContract_quotient c c1 add sp = inl q ->
+  wfc wf q /\ quotient_obligation B dt c c1 q.
 Proof.
-  intros c c1 add sp q Hc. unfold IoContract_quotient in Hc. open_in Hc.
+  intros c c1 add sp q W W1 Hc. unfold IoContract_quotient in Hc. open_in Hc.
   repeat inl_step.
   match goal with
-  | Hp : IoContract_quotient_tactics _ _ _ _ _ = inl _ |- _ => exact (quotient_sound _ _ _ _ _ _ _ Hp)
+  | Hp : IoContract_quotient_tactics _ _ _ _ _ = inl _ |- _ => exact (quotient_sound _ _ _ _ _ _ _ W W1 Hp)
   end.
 Qed.
 
 (* ---------- 4. merge ---------- *)
-Theorem merge_exact : forall c1 c2 m, IoContract_merge c1 c2 = inl m -> merge_obligation B dt c1 c2 m.
+Theorem merge_exact : forall c1 c2 m, wfc wf c1 -> wfc wf c2 ->
+  IoContract_merge c1 c2 = inl m ->
+  wfc wf m /\ merge_obligation B dt c1 c2 m.
 Proof.
-  intros c1 c2 m Hc. unfold IoContract_merge in Hc. open_in Hc.
-  repeat inl_step.
-  split; intros b; saturate b; den_finish b.
+  intros c1 c2 m W1 W2 Hc. open_wfc. unfold IoContract_merge in Hc. open_in Hc.
+  repeat inl_step; tl_simpl; saturate.
+  split; [assumption|].
+  split; intros b; at_behaviour b; den_finish b.
 Qed.
 
 (* ---------- 5. refinement ---------- *)
-Theorem refines_sound : forall c1 c2, IoContract_refines c1 c2 = inl true ->
+Theorem refines_sound : forall c1 c2, wfc wf c1 -> wfc wf c2 ->
+  IoContract_refines c1 c2 = inl true ->
   (forall b, den B dt (c_a c2) b -> den B dt (c_a c1) b) /\
   (forall b, den B dt (c_a c2) b -> den B dt (c_g c1) b -> den B dt (c_g c2) b).
 Proof.
-  intros c1 c2 Hc. unfold IoContract_refines in Hc. open_in Hc.
-  rewrite !TermList_le_eq in Hc.
+  intros c1 c2 W1 W2 Hc. open_wfc. unfold IoContract_refines in Hc. open_in Hc.
   repeat inl_step.
   match goal with
   | Hb : (?x && ?y)%bool = true |- _ =>
       apply andb_true_iff in Hb; destruct Hb as [Hb1 Hb2]; subst x; subst y
   end.
-  split; intros b; saturate b; den_finish b.
+  tl_simpl; saturate.
+  split; intros b; at_behaviour b; den_finish b.
 Qed.
 
 (* ---------- 6. contains_environment / contains_implementation ---------- *)
-Theorem contains_environment_sound : forall c comp,
+Theorem contains_environment_sound : forall c comp, wfc wf c -> wfs wf comp ->
   IoContract_contains_environment c comp = inl true ->
   forall b, den B dt comp b -> den B dt (c_a c) b.
 Proof.
-  intros c comp Hc b. unfold IoContract_contains_environment in Hc. open_in Hc.
-  rewrite !TermList_le_eq in Hc.
-  repeat inl_step; saturate b; den_finish b.
+  intros c comp W Wc Hc b. open_wfc. unfold IoContract_contains_environment in Hc. open_in Hc.
+  repeat inl_step; tl_simpl; saturate; at_behaviour b; den_finish b.
 Qed.
 
-Theorem contains_implementation_sound : forall c comp,
+Theorem contains_implementation_sound : forall c comp, wfc wf c -> wfs wf comp ->
   IoContract_contains_implementation c comp = inl true ->
   forall b, den B dt comp b -> den B dt (c_a c) b -> den B dt (c_g c) b.
 Proof.
-  intros c comp Hc b. unfold IoContract_contains_implementation in Hc. open_in Hc.
-  rewrite !TermList_le_eq in Hc.
-  repeat inl_step; saturate b; den_finish b.
+  intros c comp W Wc Hc b. open_wfc. unfold IoContract_contains_implementation in Hc. open_in Hc.
+  repeat inl_step; tl_simpl; saturate; at_behaviour b; den_finish b.
+Qed.
+
+(* ---------- the remaining constructors keep the invariant ---------- *)
+Theorem rename_wfc : forall c s u c', wfc wf c ->
+  IoContract_rename_variable c s u = inl c' -> wfc wf c'.
+Proof.
+  intros c s u c' W Hc. open_wfc. unfold IoContract_rename_variable in Hc. open_in Hc.
+  repeat inl_step; tl_simpl; saturate; assumption.
+Qed.
+
+Theorem copy_wfc : forall c c', wfc wf c -> IoContract_copy c = inl c' -> wfc wf c'.
+Proof.
+  intros c c' W Hc. open_wfc. unfold IoContract_copy in Hc. open_in Hc.
+  repeat inl_step; tl_simpl; saturate; assumption.
+Qed.
+
+Theorem simplify_wfc : forall c c', wfc wf c -> IoContract_simplify c = inl c' -> wfc wf c'.
+Proof.
+  intros c c' W Hc. open_wfc. unfold IoContract_simplify in Hc. open_in Hc.
+  repeat inl_step; tl_simpl; saturate; unfold wfc; simpl; split; assumption.
+Qed.
+
+(* ... and copy / simplify do not change the meaning *)
+Theorem copy_sound : forall c c', wfc wf c -> IoContract_copy c = inl c' ->
+  c_a c' = c_a c /\ forall b, den B dt (c_a c) b -> (den B dt (c_g c') b <-> den B dt (c_g c) b).
+Proof.
+  intros c c' W Hc. open_wfc. unfold IoContract_copy in Hc. open_in Hc.
+  repeat inl_step; tl_simpl.
+  match goal with
+  | Hp : IoContract_init ?a ?g _ _ _ = inl _ |- _ =>
+      assert (Wa : wfs wf a) by wfs_solve; assert (Wg : wfs wf g) by wfs_solve;
+      destruct (init_sound _ _ _ _ _ _ Wa Wg Hp) as (_ & Ea & _ & _ & Hq)
+  end.
+  split; assumption.
 Qed.
 
 End Sound.
@@ -447,25 +598,36 @@ Proof.
   apply String.eqb_eq in Ev. apply Nat.eqb_eq in En. subst. tauto.
 Qed.
 
-Lemma ToySpec : DomainSpec beh atom_dt.
+(* no invariant is needed here: every atom is well-formed *)
+Definition atom_wf (t : atom) : Prop := True.
+Lemma atom_wfs (l : list atom) : wfs atom_wf l.
+Proof. unfold wfs. apply Forall_forall. intros t _. exact I. Qed.
+Lemma atom_wfc (c : contract) : wfc atom_wf c.
+Proof. split; apply atom_wfs. Qed.
+
+Lemma ToySpec : DomainSpec beh atom_dt atom_wf.
 Proof.
   constructor.
-  - exact atom_eqb_sound.
-  - intros s ctx vs sp od r st Hr b Hctx Hden. simpl in Hr. inversion Hr; subst; clear Hr.
+  - intros t1 t2 _ _. apply atom_eqb_sound.
+  - intros s ctx vs sp od r st _ _ Hr. split; [apply atom_wfs|]. intros b Hctx Hden.
+    simpl in Hr. inversion Hr; subst; clear Hr.
     unfold den in *. rewrite Forall_forall in *. intros t Ht.
     destruct (existsb (atom_eqb t) ctx) eqn:E.
     + apply existsb_exists in E. destruct E as (u & Hu & Eu).
       apply (atom_eqb_sound _ _ Eu b). apply Hctx. exact Hu.
     + apply Hden. apply filter_In. rewrite E. split; [exact Ht|reflexivity].
-  - intros s ctx vs sp od r st Hr b Hctx Hden. simpl in Hr. inversion Hr; subst; clear Hr.
+  - intros s ctx vs sp od r st _ _ Hr. split; [apply atom_wfs|]. intros b Hctx Hden.
+    simpl in Hr. inversion Hr; subst; clear Hr.
     unfold den in *. rewrite Forall_forall in *. intros t Ht.
     apply filter_In in Ht. apply Hden. tauto.
-  - intros s ctx r Hr b Hctx. simpl in Hr. inversion Hr; subst. tauto.
-  - intros x y Hr b Hx. simpl in Hr. inversion Hr as [Hf]; clear Hr.
+  - intros s ctx r _ _ Hr. split; [apply atom_wfs|]. intros b Hctx.
+    simpl in Hr. inversion Hr; subst. tauto.
+  - intros x y _ _ Hr b Hx. simpl in Hr. inversion Hr as [Hf]; clear Hr.
     unfold den in *. rewrite Forall_forall in *. intros t Ht.
     rewrite forallb_forall in Hf. specialize (Hf t Ht).
     apply existsb_exists in Hf. destruct Hf as (u & Hu & Eu).
     apply (atom_eqb_sound _ _ Eu b). apply Hx. exact Hu.
+  - intros t s u _. exact I.
 Qed.
 
 (* c1 : input x, output y, assumes x = 0, guarantees y = 1
@@ -489,7 +651,7 @@ Proof. vm_compute. reflexivity. Qed.
 Example compose_cascade_obligation : compose_obligation beh atom_dt c1 c2 c12.
 Proof.
   destruct compose_cascade_runs as (st & Hst).
-  exact (compose_sound beh atom_dt ToySpec _ _ _ _ _ _ _ Hst).
+  exact (proj2 (compose_sound beh atom_dt atom_wf ToySpec _ _ _ _ _ _ _ (atom_wfc c1) (atom_wfc c2) Hst)).
 Qed.
 
 (* the hypotheses of quotient_sound are satisfiable too, through both outcomes
@@ -511,7 +673,7 @@ Proof. eexists. vm_compute. reflexivity. Qed.
 Example quotient_obligation_true : quotient_obligation beh atom_dt c12 c1 c2.
 Proof.
   destruct quotient_runs_true as (st & Hst).
-  exact (quotient_sound beh atom_dt ToySpec _ _ _ _ _ _ _ Hst).
+  exact (proj2 (quotient_sound beh atom_dt atom_wf ToySpec _ _ _ _ _ _ _ (atom_wfc c12) (atom_wfc c1) Hst)).
 Qed.
 
 Example merge_runs : IoContract_merge c1 c1 = inl c1.
@@ -528,4 +690,9 @@ Print Assumptions merge_exact.
 Print Assumptions init_sound.
 Print Assumptions refines_sound.
 Print Assumptions algebra_errors.
+Print Assumptions rename_wfc.
+Print Assumptions copy_wfc.
+Print Assumptions simplify_wfc.
+Print Assumptions contains_environment_sound.
+Print Assumptions contains_implementation_sound.
 Print Assumptions Toy.compose_cascade_obligation.
